@@ -23,6 +23,7 @@ CONSTANTS
   CHAIN = TRUE
   WILD = FALSE
   FIXMODEL = "intended"
+  ANYRATIO = FALSE
   BASEMOD = 4
   CODED = FALSE
   EMIT = FALSE
